@@ -91,7 +91,8 @@ class Batch(object):
         c = {'op': r['op'], 'source': m.get('source'), 'pos': r.get('pos'), 'module': r.get('module'),
              'filename': r.get('filename'), 'text': self.texts[r['text']] if 'text' in r else None,
              'files': files, 'root': p.get('root'), 'roots': p['roots'] if files is None else None,
-             'what': (m.get('cand') or {}).get('what'), 'force_domain': bool(m.get('force_domain'))}
+             'what': (m.get('cand') or {}).get('what'), 'force_domain': bool(m.get('force_domain')),
+             'root_specs': p.get('root_specs'), 'roots_used': p['roots']}
         if files is not None and r.get('filename'):
             c['filename_rel'] = os.path.relpath(r['filename'], p['root'])
         return c
@@ -596,6 +597,67 @@ def gen_inverted(rng):
     return files, used, exported
 
 
+ROOT_NAMES = ('src', 'lib', 'root_a', 'root_b', 'vendor', 'app', 'core', 'extras', 'third_party', 'overlay', 'gen',
+              'plugins', 'site', 'base', 'common')
+
+
+def gen_multiroot(rng):
+    """a project with 2-4 source roots in which the same module / package / sub-module name exists in several roots
+    with different contents, and requests whose answers show which root was used.
+    -> (root specs [(subdir, 'abs'|'rel')], files {relpath under the case dir: text}, [(text, pos, op, expr)])"""
+    n = rng.randint(2, 4)
+    names = rng.sample(ROOT_NAMES, n)
+    if rng.random() < 0.4:
+        names = ['%s%d' % (x, rng.randrange(100)) for x in names]
+    specs = [(x, 'rel' if rng.random() < 0.4 else 'abs') for x in names]
+    files = {}
+
+    def holders():
+        return sorted(rng.sample(range(n), rng.randint(2, n)))
+    sh = holders()
+    for k in sh:
+        files['%s/shared.py' % names[k]] = ('# shared, copy %d\n' % k + '\n' * k +
+                                            'def handler():\n    return %d\n\n\nonly_%d = %d\ncommon_value = %r\n\n\n'
+                                            'class Shared%d(object):\n    origin = %d\n' % (k, k, k, names[k], k, k))
+    pk = holders()
+    for k in pk:
+        files['%s/pkg/__init__.py' % names[k]] = '# pkg, copy %d\n' % k + '\n' * k + 'origin = %d\nonly_pkg_%d = %d\n' % (k, k, k)
+        files['%s/pkg/sub_%d.py' % (names[k], k)] = 'here = %d\n' % k
+        files['%s/pkg/common.py' % names[k]] = '\n' * k + 'value = %d\n\n\ndef only_common_%d():\n    return %d\n' % (k, k, k)
+    ut = holders()
+    for i, k in enumerate(ut):          # the same name as a module in some roots and as a package in others
+        if (i + k) % 2:
+            files['%s/util.py' % names[k]] = '\n' * k + 'marker = %d\nas_module_%d = 1\n' % (k, k)
+        else:
+            files['%s/util/__init__.py' % names[k]] = '\n' * k + 'marker = %d\nas_package_%d = 1\n' % (k, k)
+    for k in range(n):
+        files.setdefault('%s/unique_%d.py' % (names[k], k), 'u = %d\n' % k)
+    star = ('from shared import *\nfrom pkg.common import *\nimport os\nprint(handler, value, %s, %s)\n' % (
+        ', '.join('only_%d' % k for k in sh), ', '.join('only_common_%d' % k for k in pk)))
+    files['work/main.py'] = star
+    reqs = [
+        ('import shared\nshared.\n', (2, 7), 'assist', 'shared.'),
+        ('import shared\nshared.handler\n', (2, 14), 'location', 'shared.handler'),
+        ('import shared\nshared.common_value\n', (2, 19), 'location', 'shared.common_value'),
+        ('from shared import \n', (1, 19), 'assist', 'from shared import |'),
+        ('from shared import handler\nhandler\n', (1, 26), 'location', 'from shared import handler|'),
+        ('from shared import handler\nhandler\n', (2, 7), 'location', 'handler (imported from shared)'),
+        ('import pkg.\n', (1, 11), 'assist', 'import pkg.|'),
+        ('from pkg import \n', (1, 16), 'assist', 'from pkg import |'),
+        ('import pkg\npkg.\n', (2, 4), 'assist', 'pkg.'),
+        ('import pkg\npkg.origin\n', (2, 10), 'location', 'pkg.origin'),
+        ('import pkg.common\npkg.common.\n', (2, 11), 'assist', 'pkg.common.'),
+        ('import pkg.common\npkg.common.value\n', (2, 16), 'location', 'pkg.common.value'),
+        ('from pkg import common\ncommon.value\n', (2, 12), 'location', 'common.value'),
+        ('from pkg.common import value\nvalue\n', (2, 5), 'location', 'value (from pkg.common)'),
+        ('import util\nutil.\n', (2, 5), 'assist', 'util.'),
+        ('import util\nutil.marker\n', (2, 11), 'location', 'util.marker'),
+        ('import \n', (1, 7), 'assist', 'import |'),
+        (star, None, 'lint', 'lint of star imports'),
+    ]
+    return specs, files, reqs
+
+
 def build_gextra(part, rng, bdir, arg):
     from supp.project import Project
     b = Batch()
@@ -613,6 +675,25 @@ def build_gextra(part, rng, bdir, arg):
         for rel, text in sorted(files.items()):
             b.add('lint', pid, text, None, os.path.join(root, rel), **meta)
             b.add('members', pid, module=rel[:-3], mtext=text, multi_exports=0, **meta)
+    for j in range(arg.get('multiroot', 0)):
+        specs, files, reqs = gen_multiroot(rng)
+        pid = 'r%d' % j
+        root = os.path.join(bdir, pid)
+        write_files(root, files)
+        roots = [os.path.join(root, d) if kind == 'abs' or os.getcwd() != core.VERIF
+                 else os.path.relpath(os.path.join(root, d), core.VERIF) for d, kind in specs]
+        part.count('multi_root_projects_generated')
+        part.hist('multi_root_count', len(roots))
+        for r in roots:
+            part.hist('multi_root_string_kind', 'absolute' if os.path.isabs(r) else 'relative')
+        b.projects[pid] = {'roots': roots, 'root': root, 'files': files, 'root_specs': [list(x) for x in specs]}
+        meta = {'source': 'gmultiroot', 'own_files': None}
+        filename = os.path.join(root, 'work', 'main.py')
+        for text, pos, op, ex in reqs:
+            b.add(op, pid, text, pos, filename, force_domain=True, cand={'name': ex, 'what': 'multi-root', 'nalt': 2}, **meta)
+        for mod in ('shared', 'pkg', 'pkg.common', 'util'):
+            b.add('members', pid, module=mod, mtext=json.dumps([mod, sorted(files.items())]), multi_exports=0,
+                  cand={'name': mod, 'what': 'multi-root', 'nalt': 2}, **meta)
     for j in range(arg['inverted']):
         files, used, exported = gen_inverted(rng)
         pid = 'i%d' % j
@@ -782,6 +863,12 @@ def classify(op, answers, what=''):
             return op + '-exception-type-varies'
         return op + '-raises-in-some-runs-only'
     rs = [a['r'] for a in answers]
+    if what == 'multi-root':
+        generic = classify(op, answers, '')
+        if generic in ('location-content-differs', 'assist-proposals-vary', 'lint-rows-vary', 'module-members-vary',
+                       'module-member-definition-varies', 'module-members-content-differs'):
+            return '%s-answer-from-different-source-root' % {'members': 'module-members'}.get(op, op)
+        return generic
     if op == 'location':
         shapes = set(tuple(len(x) if isinstance(x, list) else -1 for x in r) for r in rs)
         if len(shapes) == 1:
@@ -916,6 +1003,10 @@ def compare_batch(part, b, passes, runs, spans_of):
                 nontrivial = True
         elif what == 'import-of-multi':
             part.count('requests_import_of_multiply_bound_member')
+            nontrivial = True
+        elif what == 'multi-root':
+            part.count('requests_on_module_present_in_several_roots')
+            part.hist('multi_root_requests', '%s:%s' % (op, (m.get('cand') or {}).get('name')))
             nontrivial = True
         if op == 'location':
             nl = nested_lists(first)
@@ -1136,7 +1227,7 @@ def main(run):
         for n in range(run.pick(6, 14)):
             args.append({'kind': 'gclass', 'index': n, 'target': 900, 'max_cases': 14, 'multiattr': 12})
         for n in range(run.pick(4, 12)):
-            args.append({'kind': 'gextra', 'index': n, 'multiclass': 10, 'inverted': 14})
+            args.append({'kind': 'gextra', 'index': n, 'multiclass': 10, 'inverted': 14, 'multiroot': 10})
         for a in args:
             a.update({'seed': run.seed, 'tmp': tmp, 'children': k})
         core.run_parts(run, 'vf.props.c17:work', args, timeout=2400)
@@ -1151,6 +1242,7 @@ def main(run):
                  'requests_attribute_defined_by_2+_alternative_classes', 'requests_import_of_multiply_bound_member',
                  'multi_alternative_requests_with_inverted_visibility_order',
                  'alternative_lists_spanning_except_handler_and_try_else',
+                 'requests_on_module_present_in_several_roots',
                  'module_member_requests_with_multiply_bound_export', 'assist_requests', 'lint_requests'),
         assumptions=[
             'every process that evaluates a batch sees the same request sequence on Project objects created at first use, '
@@ -1184,7 +1276,11 @@ def replay(run, path):
             filename = c.get('filename')
             if c.get('files') is not None:
                 write_files(root, c['files'])
-                b.projects['p'] = {'roots': [root], 'root': root, 'files': c['files']}
+                roots = [root]
+                if c.get('root_specs'):
+                    roots = [os.path.join(root, d) if kind == 'abs' or os.getcwd() != core.VERIF
+                             else os.path.relpath(os.path.join(root, d), core.VERIF) for d, kind in c['root_specs']]
+                b.projects['p'] = {'roots': roots, 'root': root, 'files': c['files'], 'root_specs': c.get('root_specs')}
                 if c.get('filename_rel'):
                     filename = os.path.join(root, c['filename_rel'])
             else:
